@@ -3,6 +3,7 @@ package main
 import (
 	"fmt"
 	"strings"
+	"sync"
 
 	"github.com/oneconcern/datamon/pkg/filetracker"
 )
@@ -44,6 +45,39 @@ func c22Case(c *ctx, ws []wr, q int64, ln int64) {
 	c.w.Count(fmt.Sprintf("writes=%d", len(ws)))
 }
 
+// c22Conc: the writes are issued concurrently (the tracker serialises them under its lock); what is
+// tracked afterwards is the union of the written ranges whatever order they took effect in, so the
+// sequential model of the same writes is the expected answer to every query.
+func c22Conc(c *ctx, ws []wr, q int64, ln int64) {
+	t := filetracker.VerifNew()
+	parts := make([]string, len(ws))
+	var wg sync.WaitGroup
+	start := make(chan struct{})
+	for i, w := range ws {
+		parts[i] = fmt.Sprintf("%d:%d", w.off, w.n)
+		wg.Add(1)
+		go func(w wr) {
+			defer wg.Done()
+			<-start
+			t.VerifTrackWrite(w.off, w.n)
+		}(w)
+	}
+	close(start)
+	wg.Wait()
+	rs := make([]string, q)
+	for x := int64(0); x < q; x++ {
+		n, mut := t.VerifGetRangeToRead(x, ln)
+		b := 0
+		if mut {
+			b = 1
+		}
+		rs[x] = fmt.Sprintf("%d/%d", n, b)
+	}
+	c.w.Cases++
+	c.w.Op(fmt.Sprintf("t w=%s q=%d len=%d conc=1", strings.Join(parts, ","), q, ln), fmt.Sprintf("r=%s", strings.Join(rs, ",")))
+	c.w.Count(fmt.Sprintf("concurrent-writes=%d", len(ws)))
+}
+
 func c22(c *ctx) error {
 	// exhaustive part: all sequences of up to k writes, offsets 0..maxOff, lengths 0..maxLen
 	k, maxOff, maxLen := 3, int64(5), int64(4)
@@ -81,6 +115,26 @@ func c22(c *ctx) error {
 			q = 70
 		}
 		c22Case(c, ws, q, int64(1+c.rng.Intn(int(span))))
+	}
+	// concurrent writers (mostly disjoint, non-touching ranges: a lost update cannot hide behind a merge)
+	nc := 1500
+	if c.thorough() {
+		nc = 30000
+	}
+	for i := 0; i < nc; i++ {
+		cnt := 2 + c.rng.Intn(15)
+		ws := make([]wr, cnt)
+		for j := range ws {
+			ws[j] = wr{int64(j*4 + c.rng.Intn(2)), int64(1 + c.rng.Intn(2))}
+			if c.rng.Intn(6) == 0 {
+				ws[j] = wr{int64(c.rng.Intn(cnt * 4)), int64(c.rng.Intn(6))}
+			}
+		}
+		q := int64(cnt*4 + 4)
+		if q > 70 {
+			q = 70
+		}
+		c22Conc(c, ws, q, int64(1+c.rng.Intn(8)))
 	}
 	return nil
 }
